@@ -158,10 +158,11 @@ func DecodeAndValidateClaimsFromCBOR(buf []byte) (IClaims, error) {
 
 // DecodeClaimsFromCBOR returns an IClaims implementation instance
 // populated from the provided CBOR buf. The implementation used is determined
-// by value of the eat_profile (key 265) in the provided CBOR object. In the
-// absence of this key, Profile1 (PSA_IOT_PROFILE_1) is assumed. No validation
-// is performed to confirm that the decoded claims actually conform to the
-// stated profile.
+// by value of the eat_profile (key 265) in the provided CBOR object or, in
+// its absence, by the profile claim of Profile1 and of the profiles derived
+// from it (key -75000). In the absence of both, Profile1 (PSA_IOT_PROFILE_1)
+// is assumed. No validation is performed to confirm that the decoded claims
+// actually conform to the stated profile.
 func DecodeClaimsFromCBOR(buf []byte) (IClaims, error) {
 	selector := &struct {
 		// note: code point 265 is defined as the eat_profile claim in
